@@ -62,7 +62,7 @@ RichKinds == SingleKinds \o << <<FALSE, FALSE, TRUE, FALSE>>, <<TRUE, FALSE, FAL
 Kinds == IF Rich THEN RichKinds ELSE SingleKinds
 OkKind == <<TRUE, TRUE, TRUE, FALSE>>
 
-MkCase(nsect, nmini, nmaxi, nsmax, salt) ==
+MkCaseR(nsect, nmini, nmaxi, nsmax, salt, relax) ==
   LET n == Len(cs)
       h == salt + n + 3 * nmini + 5 * nmaxi + 7 * nsmax + 11 * nsect + 13 * ndir
            + (LET S[i \in 0..n] == IF i = 0 THEN 0
@@ -76,8 +76,8 @@ MkCase(nsect, nmini, nmaxi, nsmax, salt) ==
       rsel == (h \div 5) % 4
       radiusRank == CASE rsel \in {0, 1} -> n [] rsel = 2 -> (IF n >= 2 THEN n - 1 ELSE n) [] OTHER -> (n + 1) \div 2
       \* without the K-fold option the flag means "coincides with the target": only for the closest
-      \* sample, and as an admissible sample only with a single sector
-      flagAllowed(i) == kfold \/ (perm[i] = 1 /\ (xvalid \/ nsect = 1))
+      \* sample; as an admissible sample with several sectors only when `relax` (see MkCase)
+      flagAllowed(i) == kfold \/ (perm[i] = 1 /\ (xvalid \/ nsect = 1 \/ relax))
       kindOf(i) == IF cs[i].adm
                    THEN (IF mode = 3 /\ (h + i) % 3 = 0 THEN <<TRUE, TRUE, TRUE, TRUE>> ELSE OkKind)
                    ELSE LET k == Kinds[((i + k0) % Len(Kinds)) + 1]
@@ -96,6 +96,13 @@ MkCase(nsect, nmini, nmaxi, nsmax, salt) ==
                 + (LET S[i \in 0..n] == IF i = 0 THEN 0
                                         ELSE S[i - 1] + (2 * i + 1) * (cs[i].dir + (IF cs[i].adm THEN 3 ELSE 0) + 2)
                    IN S[n]) ]
+
+\* a sample coinciding with the target, cross-validation off, several sectors: kept when the defined
+\* neighbourhood does not depend on the (undefined) sector of that sample, otherwise the sample
+\* is generated with another reason of rejection
+MkCase(nsect, nmini, nmaxi, nsmax, salt) ==
+  LET c1 == MkCaseR(nsect, nmini, nmaxi, nsmax, salt, TRUE)
+  IN IF SectorIndependent(c1) THEN c1 ELSE MkCaseR(nsect, nmini, nmaxi, nsmax, salt, FALSE)
 
 Init == cs = <<>> /\ ndir \in 1..MaxDir /\ phase = "build" /\ case = <<>>
 
@@ -123,7 +130,7 @@ RankKeys(c) == [i \in Idx(c) |-> Rank(c, i)]
 \* C06 on the model: the transcription of the code computes the defined neighbourhood
 Inv_Core ==
   IsCase => LET d == Definition(case) IN
-            /\ WellFormed(case)
+            /\ WellFormed(case) /\ SectorIndependent(case)
             /\ Algorithm(case) = d
             /\ (case.nmaxi > 0 => Len(d) <= case.nmaxi)
             /\ RangeOf(d) \subseteq Admissible(case)
@@ -144,18 +151,29 @@ Inv_BallSufficient ==
 (* Emission                                                                 *)
 
 B2I(b) == IF b THEN 1 ELSE 0
-Coincident(c, i) == ~c.kfold /\ c.cands[i].isTargetOrFold
 EucKeys(c, m) == [i \in Idx(c) |->
                    IF Coincident(c, i) THEN 0
                    ELSE Rank(c, i) * Geom.W[m][c.ndir][c.cands[i].sector + 1][i]]
 EucDistinct(c, e) == \A i, j \in Idx(c) : i # j => (e[i] - e[j] >= 50 \/ e[j] - e[i] >= 50)
 
+\* The model of the ball path (a recorded deviation of gstlearn where it differs from the
+\* definition) may depend on the undefined sector of a sample coinciding with the target although
+\* the definition does not: every sector is then a possible outcome of the model.
+SectorVariants(c) ==
+  IF \E i \in Idx(c) : Coincident(c, i) /\ ~c.xvalid /\ c.nsect > 1
+  THEN LET i == CHOOSE j \in Idx(c) : Coincident(c, j) IN {WithSector(c, i, s) : s \in 0..(c.ndir - 1)}
+  ELSE {c}
+
 BallInfo(c, m, def) ==
   IF c.nmaxi < 1 THEN [side |-> FALSE]
   ELSE LET e == EucKeys(c, m) IN
        IF ~BallSide(c, e) \/ ~EucDistinct(c, e) THEN [side |-> FALSE]
-       ELSE LET model == BallAlgorithm(c, e)
-            IN [side |-> TRUE, cause |-> BallCause(c, e, model, def), model |-> model,
+       ELSE LET models == {BallAlgorithm(v, e) : v \in SectorVariants(c)}
+                bad == {v \in SectorVariants(c) : BallAlgorithm(v, e) # def}
+            IN [side |-> TRUE,
+                cause |-> IF bad = {} THEN "none"
+                          ELSE LET v == CHOOSE w \in bad : TRUE IN BallCause(v, e, BallAlgorithm(v, e), def),
+                models |-> SetToSeq(models),
                 xin |-> BallHoldsExcluded(c, e)]
 
 Out(c) == LET def == Definition(c) IN
